@@ -48,6 +48,8 @@ def _menus():
             "deltar": (f"ds.Select(lambda e: e.{coll}('A').Select(lambda j: DeltaR(j.eta(), j.phi(), j.eta(), j.phi())))", True),
             "docker": ("MetaData(ds, {'metadata_type': 'docker', 'image': 'other/image:1'})" + body, None),   # ok only with ext
             # a documented math function called plainly, and a query that brings its OWN function under that name
+            # nested deeper than the interpreter's default recursion limit: refused (RecursionError) - with or without history
+            "deep": (f"ds.Select(lambda e: e.{coll}('A').Select(lambda j: j.pt()" + " + 1" * 1200 + "))", False),
             "math_plain": (f"ds.Select(lambda e: e.{coll}('A').Select(lambda j: hypot(j.pt(), j.eta())))", True),
             "math_own": ("MetaData(ds, {'metadata_type': 'add_cpp_function', 'name': 'hypot', 'include_files': ['my/Hypot.h'], 'arguments': ['a', 'b'], "
                          "'code': ['double result = my_hypot(a, b);'], 'return_type': 'double'})"
@@ -149,6 +151,7 @@ def snapshot(executors) -> str:
             items.append(f"{modname}.{k}={_canon(v, frozenset())}")
     for i, (b, exe) in enumerate(executors):
         items.append(f"exe{i}:{b}={_canon(vars(exe), frozenset())}")
+    items.append(f"sys.recursionlimit={sys.getrecursionlimit()}")       # interpreter state the library could change
     text = "\n".join(items)
     text = re.sub(r"70\d{4}", "#", text)
     return text
@@ -191,11 +194,16 @@ def apply_event(ev, executors):
         b, exe = executors[ev[1]]
         text = MENUS[b][ev[2]][0]
         if kind == "tr":
-            a = parse_query(text)
+            try:
+                a = parse_query(text)
+            except RecursionError:
+                return ("exc", "RecursionError", "(while the caller builds the ast)")
             _AST_OBJECTS[(b, ev[2])] = a       # the very object handed to the library
         else:
             # the caller translates the SAME query object once more (ObjectStream.value() called twice)
-            a = _AST_OBJECTS[(b, ev[2])]
+            a = _AST_OBJECTS.get((b, ev[2]))
+            if a is None:
+                return ("exc", "RecursionError", "(while the caller builds the ast)")
         pkg = translate_ast(a, b, query_text=text, executor=exe, fresh=False)
         if pkg.ok:
             return ("pkg", digest_files(pkg.files), pkg.files)
